@@ -306,6 +306,11 @@ impl VirtualSign<'_> {
 
     /// Handles `DataChunksSent` messages.
     fn data_chunks_sent<'a>(&mut self, chunks: ChunkCount) -> Option<Message<'a>> {
+        // This message is not addressed, so it may belong to another sign's transfer; ignore it unless we are receiving.
+        if self.state != State::ConfigInProgress && self.state != State::PixelsInProgress {
+            return None;
+        }
+
         if ChunkCount(self.data_chunks) == chunks {
             match self.state {
                 State::ConfigInProgress => self.state = State::ConfigReceived,
